@@ -79,6 +79,8 @@ pub(crate) struct PipeModel {
     /// prefixes: index -> NLRI (P1..P3 on one shard when shards > 1)
     ops: Vec<Op>,
     nets: Vec<packet::Nlri>,
+    /// which export policy the policy-swap op installs: false = reject LOCAL_PREF 100, true = set MED 77
+    policy_sets_med: bool,
 }
 
 type Mirror = BTreeMap<(String, u32), (String, Option<IpAddr>)>;
@@ -106,6 +108,8 @@ pub(crate) struct Sys {
     /// the export policy changed and no soft reset / route refresh has been requested since
     policy_pending_reset: bool,
     dirty: bool,
+    /// kinds of the ops applied since the last sync (shape class of a violation found at the next sync)
+    since_sync: BTreeSet<&'static str>,
     broken: BTreeSet<String>,
     dead: bool,
 }
@@ -191,7 +195,7 @@ impl PipeModel {
             })),
             nh_down: BTreeSet::new(),
             src_down: [false, false],
-            policy: reject_lp100_export(),
+            policy: if self.policy_sets_med { set_med_export() } else { reject_lp100_export() },
             policy_on: false,
         }
     }
@@ -308,6 +312,15 @@ fn reject_lp100_export() -> Arc<table::PolicyAssignment> {
     pt.build_assignment(None, "global", table::PolicyDirection::Export, table::Disposition::Accept, vec!["p".to_string()]).unwrap()
 }
 
+/// Export policy that rewrites an attribute of every route (MED := 77).
+fn set_med_export() -> Arc<table::PolicyAssignment> {
+    let mut pt = table::PolicyTable::new();
+    let actions = table::Actions { med: Some(table::MedAction { action_type: table::MedActionType::Replace, value: 77 }), ..Default::default() };
+    pt.add_statement("s", vec![], Some(table::Disposition::Accept), actions).unwrap();
+    pt.add_policy("p", vec!["s".to_string()]).unwrap();
+    pt.build_assignment(None, "global", table::PolicyDirection::Export, table::Disposition::Accept, vec!["p".to_string()]).unwrap()
+}
+
 fn attr_fp(a: &[packet::Attribute]) -> String {
     let mut v: Vec<(u8, String)> = a.iter().map(|x| (x.code(), crate::verif::vx::report::hex(&x.encode_to_bytes()))).collect();
     v.sort();
@@ -369,6 +382,7 @@ impl Model for PipeModel {
             log: Vec::new(),
             policy_pending_reset: false,
             dirty: false,
+            since_sync: BTreeSet::new(),
             broken: BTreeSet::new(),
             dead,
         }
@@ -380,6 +394,23 @@ impl Model for PipeModel {
         }
         let o = &self.ops[op];
         let tables = sys.d.tables.clone();
+        let kind: &'static str = match o {
+            Op::Announce { src: 3, .. } => "announce-by-neighbour",
+            Op::Announce { .. } => "announce",
+            Op::Withdraw { .. } => "withdraw",
+            Op::PeerDown { .. } => "peer_down",
+            Op::PeerDownStale { .. } => "peer_down_gr",
+            Op::MarkLlgr { .. } => "llgr_start",
+            Op::DropStale { .. } => "stale_purge",
+            Op::Nh { .. } => "nexthop",
+            Op::SoftResetOut => "soft_reset_out",
+            Op::RouteRefresh => "route_refresh",
+            Op::PolicySwap => "policy_swap",
+            Op::Sync => "sync",
+        };
+        if kind != "sync" {
+            sys.since_sync.insert(kind);
+        }
         match o {
             Op::Announce { .. } | Op::Withdraw { .. } | Op::PeerDown { .. } | Op::PeerDownStale { .. } | Op::MarkLlgr { .. } | Op::DropStale { .. } | Op::Nh { .. } | Op::PolicySwap => {
                 if !self.rib_apply(&tables, &mut sys.st, o) {
@@ -484,7 +515,14 @@ impl Model for PipeModel {
                                         }
                                     }
                                 }
-                                cur.push((format!("C01/view-differs-from-fresh-session/{class}"), format!("{detail}; neighbour view {:?}; fresh view {:?}", sys.mirror.keys().collect::<Vec<_>>(), fresh.keys().collect::<Vec<_>>())));
+                                                // shape class: observer kind + the most specific kind of event since the last sync
+                                let trigger = ["llgr_start", "policy_swap", "announce-by-neighbour", "peer_down_gr", "stale_purge", "nexthop", "peer_down", "route_refresh", "soft_reset_out", "withdraw", "announce"]
+                                    .iter()
+                                    .find(|k| sys.since_sync.contains(*k))
+                                    .copied()
+                                    .unwrap_or("none");
+                                let shape = format!("{}/after:{}", if self.send_max > 1 { "addpath" } else { "plain" }, trigger);
+                                cur.push((format!("C01/view-differs-from-fresh-session/{class}/{shape}"), format!("{detail}; neighbour view {:?}; fresh view {:?}", sys.mirror.keys().collect::<Vec<_>>(), fresh.keys().collect::<Vec<_>>())));
                             }
                             // independent of the dump: every mirrored prefix has a path in the RIB
                             let rib: BTreeSet<String> = sys.d.tables.collect_loc_rib_paths(F).iter().map(|c| format!("{}", c.net)).collect();
@@ -497,6 +535,7 @@ impl Model for PipeModel {
                         }
                     }
                 }
+                sys.since_sync.clear();
                 let mut now = BTreeSet::new();
                 for (sig, what) in cur {
                     let clause = sig.split('/').nth(1).unwrap_or("").to_string();
@@ -606,7 +645,7 @@ fn models(thorough: bool) -> Vec<PipeModel> {
         ops.push(Op::SoftResetOut);
         ops.push(Op::RouteRefresh);
         ops.push(Op::Sync);
-        PipeModel { name: name.into(), role, send_max, shards, ops, nets }
+        PipeModel { name: name.into(), role, send_max, shards, ops, nets, policy_sets_med: pack == "gr" }
     };
     let mut v = vec![
         mk("c01-ebgp-idreuse", ObsRole::Ebgp, 1, 2, "idreuse"),
@@ -648,7 +687,9 @@ pub(crate) fn run(replay: Option<&str>) -> Report {
     rep.notes.push("assume: the UPDATE bytes are decoded with the repository's own parser under the neighbour's negotiated codec (C04 checks that codec independently)".into());
     rep.notes.push("assume: an export-policy change is followed by soft_reset_out or ROUTE-REFRESH before the views are compared (the operator procedure); TCP partial writes inside one flush are not varied".into());
     for m in models(thorough) {
-        let cfg = BfsCfg { max_depth: depth, max_secs: if thorough { 2400 } else { 40 }, ..Default::default() };
+        // the multi-source pack has ~20 ops: one level less in the quick tier
+        let d = if !thorough && m.ops.len() > 16 { depth - 1 } else { depth };
+        let cfg = BfsCfg { max_depth: d, max_secs: if thorough { 2400 } else { 40 }, ..Default::default() };
         bfs::bfs(&m, &cfg, &mut rep);
         if let Some(e) = take_machinery() {
             rep.machinery_error = Some(e);
